@@ -13,6 +13,7 @@ import (
 
 	"github.com/pion/interceptor/verifh/hk"
 	"github.com/pion/interceptor/vsched"
+	"github.com/pion/rtcp"
 )
 
 type job struct {
@@ -23,7 +24,7 @@ type job struct {
 	Chunks int    `json:"chunks"`
 }
 
-var opNames = []string{"pkt", "skip", "dup", "late", "feedback", "tick", "nop"}
+var opNames = []string{"pkt", "skip", "dup", "late", "feedback", "rtcp-out", "tick", "nop"}
 
 type caps struct{ local, remote, rtcpR bool }
 
@@ -120,12 +121,25 @@ func (p *pump) op(o int) {
 			raw = append(raw, hk.RawRR(0x99, l, uint32(p.lseq), 0, 0)...)
 			raw = append(raw, hk.RawNACK(l, p.lseq-1)...)
 			raw = append(raw, hk.RawSR(r, 0xe000000000000000+uint64(p.rseq)<<32, uint32(p.rseq)*90)...)
+			raw = append(raw, hk.RawXRDLRR(r, l, uint32(p.fb)<<16, 1)...)
 			_, _, _ = p.s.ReadRTCP(raw)
 		}
-	case 5:
+	case 5: // the application writes RTCP of its own: SR/RR, an XR with a receiver reference time, a PLI, a NACK
+		l := hk.StreamInfo(true, 1, true).SSRC
+		r := hk.StreamInfo(false, 1, true).SSRC
+		p.fb++
+		pkts := []rtcp.Packet{
+			&rtcp.SenderReport{SSRC: l, NTPTime: 0xe0000000_00000000 + uint64(p.fb)<<32, RTPTime: uint32(p.fb), PacketCount: uint32(p.lseq), OctetCount: 1},
+			&rtcp.ReceiverReport{SSRC: l, Reports: []rtcp.ReceptionReport{{SSRC: r, LastSequenceNumber: uint32(p.rseq)}}},
+			&rtcp.ExtendedReport{SenderSSRC: l, Reports: []rtcp.ReportBlock{&rtcp.ReceiverReferenceTimeReportBlock{NTPTimestamp: 0xe0000000_00000000 + uint64(p.fb)<<32}}},
+			&rtcp.PictureLossIndication{SenderSSRC: l, MediaSSRC: r},
+			&rtcp.TransportLayerNack{SenderSSRC: l, MediaSSRC: r, Nacks: []rtcp.NackPair{{PacketID: p.rseq}}},
+		}
+		_, _ = p.s.RTCPW.Write(pkts, nil)
+	case 6:
 		vsched.Advance(hk.ReportInterval)
 		return
-	case 6:
+	case 7:
 		return
 	}
 	vsched.Advance(time.Millisecond)
@@ -374,7 +388,7 @@ func run(tier string, i int, deadline time.Time) *hk.JobResult {
 func init() {
 	hk.Register(&hk.Check{
 		ID: "C12",
-		Rule: "E2 pumping search: for every interceptor, every workload cycle of length <= 2 (thorough 3) over {in-order packet, skipped number, duplicate, late packet, feedback read, extra tick} is repeated P times per phase for five phases on one instance, every packet operation advancing the virtual clock by 1 ms (so the interceptor's own timers fire as at 1000 packets/s); the retained size - a deterministic reflective walk of everything reachable from the interceptor, maps by length, slices by capacity, channel models by queued elements - is taken at each phase boundary and must not grow by >= 1 byte per iteration in each of the last three phases. " +
+		Rule: "E2 pumping search: for every interceptor, every workload cycle of length <= 2 (thorough 3) over {in-order packet, skipped number, duplicate, late packet, incoming feedback (TWCC, RR, NACK, SR, XR-DLRR), outgoing application RTCP (SR, RR, XR-RRTR, PLI, NACK), extra tick} is repeated P times per phase for five phases on one instance, every packet operation advancing the virtual clock by 1 ms (so the interceptor's own timers fire as at 1000 packets/s); the retained size - a deterministic reflective walk of everything reachable from the interceptor, maps by length, slices by capacity, channel models by queued elements - is taken at each phase boundary and must not grow by >= 1 byte per iteration in each of the last three phases. " +
 			"Plus: after 300 packets and Unbind of the only stream the size must be within 256 bytes of an instance that never had a stream. Every cycle is non-trivial; states = cycles",
 		Assumptions: []string{"vsched model (litmus suite)", "package-level pools are not roots of the size walk", "a structure whose capacity exceeds 3xP elements would look like growth (P is chosen above every configured window: 64/8/250/8192-bit history/500 ms)"},
 		Jobs: func(tier string) []string {
